@@ -19,6 +19,7 @@ Results ==
     [a \in Qs, b \in Qs |-> <<QAdd(a, b), QSub(a, b), QMul(a, b), QCmp(a, b), IF b # Zero THEN QDiv(a, b) ELSE Zero, QMin(a, b)>>],
     [a \in Qs |-> <<QFloor(a), QCeil(a), QRound(a, 0, "HALF_UP"), QRound(a, 0, "HALF_EVEN"), QRound(a, 6, "HALF_UP"),
                     QRound(a, 4, "HALF_EVEN"), QRound(a, 2, "DOWN"), QRound(a, 0, "FLOOR"), QPow(a, 3)>>],
+    [a \in Nats |-> NSqrt(a)],
     NPow(<<2>>, 256), NTen(30), QWithin(QOf(1000001, 1000000), One, QOf(1, 100000), Zero)>>
 
 ASSUME \A a \in Nats, b \in Pos : LET dm == NDivMod(a, b) IN NAdd(NMul(dm[1], b), dm[2]) = a /\ NCmp(dm[2], b) < 0
@@ -28,6 +29,7 @@ ASSUME \A a \in Qs : QLe(QFloor(a), a) /\ QLt(a, QAdd(QFloor(a), One)) /\ QIsInt
 ASSUME QRound(QOf(25, 10), 0, "HALF_EVEN") = QI(2) /\ QRound(QOf(35, 10), 0, "HALF_EVEN") = QI(4)
        /\ QRound(QOf(25, 10), 0, "HALF_UP") = QI(3) /\ QRound(QOf(-25, 10), 0, "HALF_UP") = QI(-3)
        /\ QRound(QOf(-15, 10), 0, "FLOOR") = QI(-2) /\ QRound(QOf(-15, 10), 0, "DOWN") = QI(-1)
+ASSUME \A a \in Nats : LET r == NSqrt(a) IN NCmp(NMul(r, r), a) <= 0 /\ NCmp(NMul(NAdd(r, <<1>>), NAdd(r, <<1>>)), a) > 0
 ASSUME NPow(<<2>>, 32) = <<7296, 9496, 42>>
 ASSUME PrintT(<<"numself", Results>>)
 
